@@ -118,7 +118,31 @@ def mk_call(rng, stmt, i, joined, cls="generic"):
     return {"kind": "insert", "src": ".insert(%d, %d)" % (i, i + 100), "id": i}
 
 
+def fixed_cases():
+    """dialect clause calls next to the calls whose slots they might be tempted to read (joins with aliased tables, selects
+    with aliases, sources): all interleavings"""
+    sel = {"kind": "select", "src": ".select(T('t').f0.as_('alf0'))", "id": 0}
+    j_al = {"kind": "join", "src": ".join(T('u').as_('ua')).on(T('t').k == T('u').as_('ua').f1)", "id": 1, "tbl": "ua"}
+    j_pl = {"kind": "join", "src": ".join(T('v')).on(T('t').k == T('v').f2)", "id": 2, "tbl": "v"}
+    wh = {"kind": "where", "src": ".where(T('t').f3 == 3)", "id": 3, "tabs": ["t"]}
+    ob = {"kind": "orderby", "src": ".orderby('alf0')", "id": 0}
+    gb = {"kind": "groupby", "src": ".groupby('alf0')", "id": 0}
+    out = []
+    for cls in ("mysql", "postgresql"):
+        fu = {"kind": "for_update", "src": ".for_update(nowait=True, of=('u', 't', 'v'))", "id": 0, "extra": True}
+        out.append({"cls": cls, "stmt": "select", "calls": [sel, j_al, fu, wh, j_pl], "seed": 1, "all": True})
+    out.append({"cls": "postgresql", "stmt": "select", "calls": [sel, j_al, {"kind": "distinct_on", "src": ".distinct_on('f9', T('u').as_('ua').f1)", "id": 9}, wh], "seed": 2, "all": True})
+    out.append({"cls": "clickhouse", "stmt": "select", "calls": [sel, j_al, {"kind": "limit_by", "src": ".limit_by(2, 'alf0', T('t').f4)", "id": 4}, {"kind": "final", "src": ".final()", "id": 0}, wh], "seed": 3, "all": True})
+    out.append({"cls": "mssql", "stmt": "select", "calls": [sel, {"kind": "top", "src": ".top(5)", "id": 5}, {"kind": "limit", "src": ".limit(3)", "id": 3}, {"kind": "offset", "src": ".offset(2)", "id": 2}, ob], "seed": 4, "all": True})
+    out.append({"cls": "vertica", "stmt": "select", "calls": [sel, {"kind": "hint", "src": ".hint('lbl')", "id": 0}, wh, j_al, ob], "seed": 5, "all": True})
+    for cls in ("generic", "mysql", "snowflake", "oracle"):
+        out.append({"cls": cls, "stmt": "select", "calls": [sel, j_al, ob, gb, wh], "seed": 6, "all": True})
+    return out
+
+
 def generate(rng, n, tier):
+    for c in fixed_cases():
+        yield c
     for _ in range(n):
         cls = rng.choice(list(QNAMES))
         stmt = rng.choice(["select", "select", "select", "update", "insert"])
